@@ -126,8 +126,8 @@ var c01Sizes = func() [][2]int {
 
 func c01Body(e *fw.Env, r *fw.Result) func(c *choice.Ctx) {
 	quick := e.Quick()
-	qA := []int{0, 25, 50, 75, 100}
-	qFull := []int{0, 9, 10, 24, 25, 49, 50, 74, 75, 100}
+	qA := []int{0, 25, 50, 75, 90, 100}
+	qFull := []int{0, 9, 10, 24, 25, 26, 49, 50, 74, 75, 76, 89, 90, 100}
 	sizesA := [][2]int{{1, 1}, {4, 3}, {9, 5}, {16, 8}, {17, 17}, {33, 5}}
 	alphasA := []string{"opaque", "binary", "agradient", "late"}
 	if !quick {
@@ -138,9 +138,9 @@ func c01Body(e *fw.Env, r *fw.Result) func(c *choice.Ctx) {
 	bigSizes := [][2]int{{64, 64}, {65, 33}, {129, 2}, {320, 320}, {1, 16383}, {16383, 1}}
 	return func(c *choice.Ctx) {
 		cs := &c01Case{Seed: e.Seed, Type: "NRGBA"}
-		parts := 6
+		parts := 7
 		if !quick {
-			parts = 8
+			parts = 9
 		}
 		switch c.PickFree(parts, "part") {
 		case 0: // transform-selection product
@@ -199,14 +199,22 @@ func c01Body(e *fw.Env, r *fw.Result) func(c *choice.Ctx) {
 			}
 			x := qm[c.PickFree(len(qm), "qm")]
 			cs.Q, cs.M = x[0], x[1]
-		case 6: // thorough: large pictures (parallel paths eligible, strips at the dimension cap)
+		case 6: // pictures beyond the encoder's size thresholds (more than 50000 pixels: hash-chain window;
+			// more than 256 / 1024 histogram tiles; several rows of predictor tiles per worker chunk)
+			s := [][2]int{{224, 225}, {320, 200}}[c.PickFree(2, "size")]
+			cs.W, cs.H = s[0], s[1]
+			cs.Content = []string{"regions4", "many", "c16", "bandsH"}[c.PickFree(4, "content")]
+			cs.Alpha = []string{"opaque", "late"}[c.PickFree(2, "alpha")]
+			qm := [][2]int{{75, 4}, {90, 4}, {100, 6}, {25, 0}, {50, 2}}[c.PickFree(5, "qm")]
+			cs.Q, cs.M = qm[0], qm[1]
+		case 7: // thorough: large pictures (parallel paths eligible, strips at the dimension cap)
 			s := bigSizes[c.PickFree(len(bigSizes), "size")]
 			cs.W, cs.H = s[0], s[1]
 			cs.Content = []string{"c4", "c17", "gradient", "noise"}[c.PickFree(4, "content")]
 			cs.Alpha = []string{"opaque", "binary", "agradient"}[c.PickFree(3, "alpha")]
 			qm := [][2]int{{75, 4}, {100, 6}, {0, 0}, {75, 5}, {50, 2}}[c.PickFree(5, "qm")]
 			cs.Q, cs.M = qm[0], qm[1]
-		case 7: // thorough: every Quality 0..100 on a core set
+		case 8: // thorough: every Quality 0..100 on a core set
 			core := [][2]int{{9, 5}, {16, 16}, {33, 17}}
 			s := core[c.PickFree(len(core), "size")]
 			cs.W, cs.H = s[0], s[1]
@@ -239,7 +247,7 @@ func c01Body(e *fw.Env, r *fw.Result) func(c *choice.Ctx) {
 func init() {
 	fw.Register(&fw.Check{
 		ID: "C01", Level: "exploration", Shards: shards16,
-		Rule:   "full product of (size class x colour-content class x alpha class x Go image type x Quality thresholds x Method 0..6 x Exact x metadata) in four sub-products plus every image of shape 1x1,2x1,1x2,3x1,2x2 over a 5-pixel alphabet, plus every number of distinct colours 1..260 on a 20x20 noise layout; a case is non-trivial if it is not the 1x1 NRGBA base picture; distinct = distinct (image class, option) tuple",
+		Rule:   "full product of (size class x colour-content class x alpha class x Go image type x Quality thresholds x Method 0..6 x Exact x metadata) in four sub-products plus every image of shape 1x1,2x1,1x2,3x1,2x2 over a 5-pixel alphabet, plus every number of distinct colours 1..260 on a 20x20 noise layout, plus 224x225 and 320x200 pictures (beyond the 50000-pixel and histogram-tile thresholds) x 4 contents x 2 alpha classes x 5 Quality/Method pairs; a case is non-trivial if it is not the 1x1 NRGBA base picture; distinct = distinct (image class, option) tuple",
 		Assume: []string{"worker count pinned to 1 and pools never reuse (C12/C11 study those)", "independent decoder: vendored golang.org/x/image/vp8l", "filler pixel values inside a class are a fixed function of position and VERIF_SEED"},
 		Run: func(e *fw.Env, r *fw.Result) {
 			pin()
